@@ -62,7 +62,9 @@ Apply(t, e) ==
     [] e.ev = "RevokeDone" -> Ok([t EXCEPT !.revoked = 2])
     [] e.ev = "StoppedReceived" -> IF t.stoppedSent THEN Ok([t EXCEPT !.stoppedSeen = TRUE]) ELSE No(<<"stop signal received but never sent">>)
     [] e.ev = "StopTimeout" -> No(<<"no stop signal within the deadline after revocation; accept loop at", t.accPc>>)
-    [] e.ev = "LateConnectRefused" -> Ok(t)
+    [] e.ev \in {"LateConnectRefused", "SignalConnectRefused"} -> Ok(t)
+    \* probed from inside the delivery of the stop signal (the receiver's waker): the listening socket must be gone by then
+    [] e.ev = "SignalConnectAccepted" -> No(<<"the listening socket was still open at the instant the stop signal was delivered">>)
     \* a connection was handed a permit that the (completed) revocation did not reach: it would serve requests for ever
     [] e.ev = "PermitMissedRevocation" -> No(<<"a connection accepted during revocation holds a permit that was never revoked; it is not closed after revocation">>)
     [] e.ev = "LateConnectAccepted" -> No(<<"connection attempt served after the stop signal">>)
